@@ -152,6 +152,26 @@ def generate(profile, prop, verif_seed, idx, tier):
     return res
 
 
+def replay_equivalence(prop, verif_seed, n, tier="quick"):
+    """Self-test: executing the recorded (config, ops) of a generated run must reproduce the run -
+    same event-log digest, same verdict, same oracle-side counters (counters prefixed 'gen:' belong
+    to the generator).  Catches oracles whose state is advanced by the generator instead of by step()."""
+    from sim import profiles
+    profile = profiles.get(prop)
+    bad = []
+    for idx in range(n):
+        r1 = generate(profile, prop, verif_seed, idx, tier)
+        r2 = execute(profile, r1.cfg, r1.ops, None, tier)
+        s1 = {k: v for k, v in r1.stats.items() if not k.startswith("gen:")}
+        s2 = {k: v for k, v in r2.stats.items() if not k.startswith("gen:")}
+        v1 = r1.violation[0] if r1.violation else None
+        v2 = r2.violation[0] if r2.violation else None
+        if r1.digest != r2.digest or v1 != v2 or s1 != s2 or r1.trace_hash != r2.trace_hash:
+            diff = sorted(k for k in set(s1) | set(s2) if s1.get(k) != s2.get(k))
+            bad.append((idx, r1.digest == r2.digest, v1, v2, diff[:6]))
+    return bad
+
+
 # ------------------------------------------------------------------------- minimisation
 
 def shrink(profile, cfg, ops, signature, tier, max_execs=1500, deadline_s=40):
